@@ -10,6 +10,8 @@ import (
 	ximg "golang.org/x/image/font/sfnt"
 	"golang.org/x/image/math/fixed"
 	"seehuhn.de/go/sfnt"
+	"seehuhn.de/go/sfnt/cff"
+	"seehuhn.de/go/sfnt/glyf"
 	"seehuhn.de/go/sfnt/glyph"
 	"seehuhn.de/go/sfnt/internal/debug"
 )
@@ -31,6 +33,34 @@ func fontfileBuild(f Fields) *sfnt.Font {
 		font = debug.MakeSimpleFont()
 	default:
 		panic("unknown base font")
+	}
+	switch f["widths"] {
+	case "zero": // every advance width 0 (what Read returns for a TrueType file without hmtx)
+		switch o := font.Outlines.(type) {
+		case *glyf.Outlines:
+			for i := range o.Widths {
+				o.Widths[i] = 0
+			}
+		case *cff.Outlines:
+			for _, g := range o.Glyphs {
+				g.Width = 0
+			}
+		}
+	case "one": // a single non-zero width
+		switch o := font.Outlines.(type) {
+		case *glyf.Outlines:
+			for i := range o.Widths {
+				if i != 1 {
+					o.Widths[i] = 0
+				}
+			}
+		case *cff.Outlines:
+			for i, g := range o.Glyphs {
+				if i != 1 {
+					g.Width = 0
+				}
+			}
+		}
 	}
 	if gl := f.Ints("glyphs"); len(gl) > 0 {
 		ids := make([]glyph.ID, len(gl))
@@ -130,12 +160,18 @@ func areaFontfile(c *Ctx) {
 	n := c.N
 	for i := 0; i < n; i++ {
 		base := Pick(r, []string{"goregular", "debug"})
+		switch i {
+		case 0, 2:
+			base = "goregular"
+		case 1, 3:
+			base = "debug"
+		}
 		total := 649
 		if base == "debug" {
 			total = 33
 		}
 		var glyphs []int
-		if i >= 2 { // the first two cases are the unmodified fonts
+		if i >= 4 { // the first four cases are the complete fonts
 			k := r.Range(1, 40)
 			if k > total-1 {
 				k = total - 1
@@ -152,16 +188,22 @@ func areaFontfile(c *Ctx) {
 			if r.Bool() {
 				sort.Ints(glyphs)
 			}
-		} else if i == 1 {
-			base = "debug"
-		} else {
-			base = "goregular"
 		}
 		var runes []int
 		for j := 0; j < 40; j++ {
 			runes = append(runes, Pick(r, []int{r.Range(32, 126), r.Range(65, 90), r.Range(32, 126), r.Range(0xA0, 0x17F), r.Intn(0x3000), 0xFFFF, 0x1F600}))
 		}
-		args := fmt.Sprintf("base=%s glyphs=%s runes=%s", base, ints(glyphs), ints(runes))
+		widths := "keep"
+		switch {
+		case i == 2 || i == 3:
+			widths = "zero"
+		case i == 4:
+			widths = "one"
+		case i > 4 && r.Chance(1, 6):
+			widths = Pick(r, []string{"zero", "one"})
+		}
+		args := fmt.Sprintf("base=%s widths=%s glyphs=%s runes=%s", base, widths, ints(glyphs), ints(runes))
+		c.Stat("widths", widths)
 		c.Stat("base", base)
 		c.Stat("glyphs", bucket(len(glyphs)))
 		// (1) the complete file is a well-formed container
